@@ -209,11 +209,10 @@ Proof.
   set (K := N.to_nat 65536) in *. clearbody K.
   match goal with |- context[send_chunk ?st] => assert (Hs : Inv st) end.
   { abstract (inv_out I1 I3 I4; unfold out_ok, pk_ok; cbn -[N.modulo N.to_nat]; rewrite firstn_length; repeat split; try tauto; try lia). }
-  idtac "A".
   destruct (c_dns _).
   - pose proof (Inv_send_chunk _ Hs) as Hc. destruct (send_chunk _) as [s2 out]. cbn [fst] in Hc |- *.
     abstract (inv_same Hc).
-  - idtac "B". cbn [fst]. destruct Hs as (J1 & ((M1 & M2 & M3) & M4 & M5) & J3 & J4).
+  - cbn [fst]. destruct Hs as (J1 & ((M1 & M2 & M3) & M4 & M5) & J3 & J4).
     abstract (inv_out I1 I3 I4; unfold out_ok, pk_ok; cbn -[N.modulo N.to_nat] in *; repeat split; try tauto; try lia).
 Qed.
 
